@@ -423,13 +423,35 @@ def _inorder_rank(pos: str):
     return [0 if ch == "L" else 1 for ch in pos]
 
 
+def full_shapes(n: int):
+    """Full binary trees (every node has no or two children - the shape of an expression over binary operators) with
+    exactly n nodes."""
+    if n == 1:
+        return [(None, None)]
+    out = []
+    for k in range(1, n - 1, 2):
+        for l in full_shapes(k):
+            for r in full_shapes(n - 1 - k):
+                out.append((l, r))
+    return out
+
+
 def run_geometry(chk: Check, prog: Program) -> None:
-    import multiprocessing as mp
-    import os
     n_max = 6 if chk.tier == "quick" else 8
     chk.rule("C18.R5", f"tidy-tree invariants on every binary tree shape with up to {n_max} nodes (layout interpreted on "
              "concrete shapes)", minimum=150)
     all_shapes = [s for n in range(1, n_max + 1) for s in shapes(n)]
+    _geometry(chk, prog, "C18.R5", all_shapes, 6)
+    # the shapes of expressions over binary operators, further out: none of them is a known finding
+    f_max = 11 if chk.tier == "quick" else 13
+    chk.rule("C18.R6", f"tidy-tree invariants on every full binary tree (no node with one child) with up to {f_max} nodes",
+             minimum=100)
+    _geometry(chk, prog, "C18.R6", [s for n in range(1, f_max + 1, 2) for s in full_shapes(n)], 99)
+
+
+def _geometry(chk: Check, prog: Program, rid: str, all_shapes, per_shape_keys_upto: int) -> None:
+    import multiprocessing as mp
+    import os
     tasks = []
     for units in ((1, 1), (2.0, 3.0)):
         chunk = max(10, len(all_shapes) // 32)
@@ -449,17 +471,17 @@ def run_geometry(chk: Check, prog: Program) -> None:
     for r, units_i in zip(flat, [t[2] for t in tasks for _ in t[1]]):
         label = f"shape {r['shape']} units {units_i}"
         if "error" in r:
-            chk.undecided("C18.R5", "C18.R5:interp", label, r["error"], where)
+            chk.undecided(rid, f"{rid}:interp", label, r["error"], where)
             continue
         probs = list(r["problems"])
         if probs:
             kind = probs[0].split(":")[0].split(" of ")[0][:40]
             n_nodes = r["shape"].count("N")
-            where_key = r["shape"] if n_nodes <= 6 else "shapes-with-7-or-more-nodes"
-            chk.fail("C18.R5", f"C18.R5:{_classify_geo(probs[0])}:{where_key}", label, "; ".join(probs[:3]),
+            where_key = r["shape"] if n_nodes <= per_shape_keys_upto else "shapes-with-7-or-more-nodes"
+            chk.fail(rid, f"{rid}:{_classify_geo(probs[0])}:{where_key}", label, "; ".join(probs[:3]),
                      witness={"shape": r["shape"], "units": units_i, "coords": r.get("coords")}, where=where)
         else:
-            chk.ok("C18.R5", "C18.R5", label, where=where)
+            chk.ok(rid, rid, label, where=where)
     # mirror symmetry: the mirrored shape gets the mirrored coordinates (x -> -x, L <-> R)
     shape_of = {shape_str(sh): sh for sh in all_shapes}
     flip = str.maketrans("LR", "RL")
@@ -481,13 +503,13 @@ def run_geometry(chk: Check, prog: Program) -> None:
         label = f"shape {sname} vs its mirror image, units {u}"
         if bad:
             n_nodes = sname.count("N")
-            wk = sname if n_nodes <= 6 else "shapes-with-7-or-more-nodes"
-            chk.fail("C18.R5", f"C18.R5:mirror:{wk}", label,
+            wk = sname if n_nodes <= per_shape_keys_upto else "shapes-with-7-or-more-nodes"
+            chk.fail(rid, f"{rid}:mirror:{wk}", label,
                      f"node {bad[0]} is at {bad[1]} but its mirror image is at {bad[2]} in the mirrored tree",
                      witness={"shape": sname, "mirror": msname, "coords": cs, "mirror_coords": other}, where=where)
         else:
-            chk.ok("C18.R5", "C18.R5:mirror", label, where=where)
-    chk.analysed["layout_shapes"] = len(all_shapes)
+            chk.ok(rid, f"{rid}:mirror", label, where=where)
+    chk.analysed["layout_shapes_" + rid] = len(all_shapes)
 
 
 def _classify_geo(p: str) -> str:
